@@ -107,7 +107,20 @@ fn check<const N: usize>(unit: &str, x: &BigInt<N>, y: &BigInt<N>, sh: u32) -> O
         "BigInt::num_bits" | "BigInt::const_num_bits" => cmp(format!("{}", x.num_bits()), format!("{}", bx.bits())),
         "BigInt::not" => cmp(format!("{}", to_big(&!*x)), format!("{}", &m - 1u8 - &bx)),
         "BigInt::const_is_zero" | "BigInt::is_zero" => cmp(format!("{}", x.is_zero()), format!("{}", bx.is_zero())),
-        "BigInt::find_wnaf" | "BigInteger::find_wnaf" => {
+        "BigInt::find_naf" | "BigInt::find_relaxed_naf" | "c15_find_naf_n1_high" | "c15_relaxed_naf_small" => {
+            for relaxed in [false, true] {
+                let d = if relaxed { ark_ff::biginteger::arithmetic::find_relaxed_naf(&x.0) } else { ark_ff::biginteger::arithmetic::find_naf(&x.0) };
+                let mut acc = num_bigint::BigInt::zero();
+                for (i, z) in d.iter().enumerate() {
+                    acc += num_bigint::BigInt::from(*z) << i;
+                }
+                if acc != num_bigint::BigInt::from(bx.clone()) {
+                    return Some((format!("relaxed={relaxed} reconstructs {acc}"), format!("{bx}")));
+                }
+            }
+            None
+        },
+        "BigInt::find_wnaf" | "BigInteger::find_wnaf" | "c15_find_wnaf_n1_high" => {
             for w in 2..8usize {
                 if let Some(d) = x.find_wnaf(w) {
                     let mut acc = num_bigint::BigInt::zero();
